@@ -3,7 +3,10 @@ package c14
 import (
 	"errors"
 	"fmt"
+	"github.com/go-kid/ioc/container/support"
+	"os"
 	"runtime"
+	"sync"
 	"sync/atomic"
 	"testing"
 	"time"
@@ -116,6 +119,9 @@ func TestClose(t *testing.T) {
 	kit.Rec.Rule(rule)
 	rapid.Check(t, func(t *rapid.T) {
 		n := rapid.IntRange(0, 12).Draw(t, "n")
+		if rapid.IntRange(0, 9).Draw(t, "many") == 0 {
+			n = rapid.IntRange(30, 100).Draw(t, "nmany") // every closer, at every size
+		}
 		cs := make([]*Closer, n)
 		comps := []any{&Bystander{}}
 		failing, lazy := 0, 0
@@ -291,6 +297,9 @@ func TestClose(t *testing.T) {
 		}
 		if n == 0 {
 			labels = append(labels, "no-closers")
+		}
+		if n > 32 {
+			labels = append(labels, "more-than-32-closers")
 		}
 		kit.Rec.Case(desc, n >= 2 && (failing > 0 || !inOrder), labels...)
 	})
@@ -524,5 +533,57 @@ func TestFlakyCloser(t *testing.T) {
 			}
 		}
 		kit.Rec.Case(desc, true, "flaky-closer-started")
+	})
+}
+
+// TestGlobalSettingsCloser: a closer registered process-wide (app.Settings(app.SetComponents(..))) belongs to every
+// App of the process, whatever the App's own options are - also options that bring their own registry. It runs in
+// a process of its own (VERIF_GLOBAL_SETTINGS=1).
+var (
+	gCloser     = &Closer{name: "global-closer"}
+	gCloserOnce sync.Once
+)
+
+func TestGlobalSettingsCloser(t *testing.T) {
+	if os.Getenv("VERIF_GLOBAL_SETTINGS") != "1" {
+		t.Skip("changes process-wide settings: runs in a process of its own")
+	}
+	kit.Rec.Rule(rule)
+	open := make(chan struct{})
+	close(open)
+	gCloser.gate = open
+	gCloserOnce.Do(func() { app.Settings(app.SetComponents(gCloser)) })
+	rapid.Check(t, func(t *rapid.T) {
+		n := rapid.IntRange(0, 3).Draw(t, "n")
+		var cs []*Closer
+		comps := []any{&Bystander{}}
+		for i := 0; i < n; i++ {
+			c := &Closer{name: fmt.Sprintf("closer-%02d", i), gate: open, fail: rapid.IntRange(0, 3).Draw(t, "fail") == 0}
+			cs = append(cs, c)
+			comps = append(comps, c)
+		}
+		ops := []app.SettingOption{app.SetComponents(comps...)}
+		mode := rapid.IntRange(0, 1).Draw(t, "ownregistry")
+		if mode == 1 {
+			// the run brings its own registry (first option, then its components)
+			ops = append([]app.SettingOption{app.SetRegistry(support.NewRegistry())}, ops...)
+		}
+		atomic.StoreInt32(&gCloser.calls, 0)
+		atomic.StoreInt32(&gCloser.done, 0)
+		out := kit.RunApp(ops...)
+		desc := fmt.Sprintf("global-settings closer, n=%d own-registry-mode=%d", n, mode)
+		if !out.OK() {
+			t.Fatalf("C14: start failed: %v (%s)", out, desc)
+		}
+		out.App.Close()
+		if got := atomic.LoadInt32(&gCloser.done); got != 1 {
+			t.Fatalf("C14: the closer registered through app.Settings was closed %d times by App.Close (exactly once expected)\n%s", got, desc)
+		}
+		for i, c := range cs {
+			if got := atomic.LoadInt32(&c.done); got != 1 {
+				t.Fatalf("C14: closer %d was closed %d times\n%s", i, got, desc)
+			}
+		}
+		kit.Rec.Case(desc, mode != 0, "closer-through-global-settings")
 	})
 }
